@@ -38,7 +38,7 @@ VARIANTS = {
         lambda n: (setattr(n, 'iter', expr('_HINT_REDUCERS[bool(reductions_count):]')) or n), scope='reduce_hint'), 'C18.R1',
         'overrides are not applied to the result of an earlier reduction (an override target that is itself overridden)'),
     # ---- R2 --------------------------------------------------------------------------------------
-    'union-children-unreduced': tseeded(UN, lambda t: _raw_child(t), 'C18',
+    'union-children-unreduced': tseeded(UN, lambda t: _raw_child(t), 'C18.R2',
                                         'float inside int | float is not expanded by is_pep484_tower'),
     # ---- R3 --------------------------------------------------------------------------------------
     'tower-read-by-generator': tseeded(CMAIN, lambda t: replace_where(
@@ -74,10 +74,12 @@ def _raw_child(tree):
     hit = [False]
 
     class V(ast.NodeTransformer):
-        def visit_keyword(self, node):
-            if node.arg == 'hint_sane' and not hit[0]:
-                hit[0] = True
-                node.value = expr('HintSane(hint_child)')
+        def visit_Call(self, node):
+            if isinstance(node.func, ast.Attribute) and node.func.attr == 'enqueue_hint_child_sane' and not hit[0]:
+                for k in node.keywords:
+                    if k.arg == 'hint_sane':
+                        hit[0] = True
+                        k.value = expr('HintSane(hint_child)')
             return self.generic_visit(node)
     V().visit(tree)
     return hit[0]
